@@ -1,16 +1,146 @@
 /-
-  PCV.Model.DrvLinCode — driver requests of the LinCode scheme model (op names start with "lincode.").
+  PCV.Model.DrvLinCode — driver requests of the linear-code PCS model (`lincode.*`).
+
+  The hash functions are abstract in the model, so the driver works on the algebraic part of the
+  transcript: the harness evaluates the real hashes (`Path::verify`, the `leaf_index` comparison) and
+  the real encoder, and passes the results as flags / encoded vectors; the driver runs the model's
+  `openOne` / `checkAll` on an instance whose hashes are chosen so that `verifyPath` reproduces exactly
+  the supplied flags.
+
+  * `lincode.tensor   kind=0|1 point=[..] ncols= nrows=`                       → `a`, `b`
+  * `lincode.open_alg kind= point= wf=0|1 nrows= ncols= mat=[[..]] next= ext=[[..]] r=[..] idxbytes=[[..]]`
+        → `v`, `wf`, `columns`, `indices`, `leafidx`, `depth`
+  * `lincode.check_alg kind= point= wf= ncomm= nval= nproof=` and, per position `i`:
+        `nrows_i ncols_i next_i` (commitment), `value_i`, proof `v_i pwf_i cols_i leafok_i pathok_i`,
+        transcript `r_i idxbytes_i`, encoder results `ev_i ewf_i` (`none` = the encoder refused)
+        → `b` or `err <kind>`
 -/
 import PCV.Model.Wire
 import PCV.Model.DrvUtil
+import PCV.Model.LinCode
+import PCV.Model.CalcT
 namespace PCV
 namespace DrvLinCode
+open Driver LinCode Merkle
+
+variable {p : Nat}
+
+def asNatss (v : Val) : R (List (List Nat)) := do let xs ← asList v; xs.mapM asNats
+
+def asOptFes (v : Val) : R (Option (List (Fp p))) := do
+  match ← asOpt v with
+  | none => pure none
+  | some y => do let l ← asFes y; pure (some l)
+
+def vOptFes (xs : Option (List (Fp p))) : Val :=
+  match xs with | none => .none | some l => .some (vFes l)
+
+def getPoint (r : Req) : R (Point (Fp p)) := do
+  let kind ← asNat (← need r "kind")
+  let pt ← asFes (← need r "point")
+  if kind = 0 then
+    match pt with
+    | [z] => pure (.uni z)
+    | _ => .error "univariate-point-must-have-one-entry"
+  else pure (.ml pt)
+
+/-- hashes under which `recomputeRoot` returns the path's `leafSibling` (paths without inner nodes) -/
+def flagHashes : Hashes Nat := ⟨id, fun a b => a + b, fun a b => a + b, 0⟩
+
+/-- a path that passes the position test iff `leafOk` and verifies against root `1` iff `pathOk` -/
+def flagPath (q : Nat) (leafOk pathOk : Bool) : Path Nat :=
+  ⟨if pathOk then 1 else 2, [], if leafOk then q else q + 1⟩
+
+def flagPaths (qs : List Nat) (leafOk pathOk : List Bool) : List (Path Nat) :=
+  (leafOk.zip pathOk).zipIdx.map fun (lp, j) => flagPath (qs.getD j 0) lp.1 lp.2
+
+/-- encoder table: the harness supplies the real encoder's result on the vectors the verifier
+encodes -/
+def tableEnc (tbl : List (List (Fp p) × Option (List (Fp p)))) (x : List (Fp p)) :
+    Except Err (List (Fp p)) :=
+  match tbl.find? (fun e => e.1 == x) with
+  | some (_, some w) => .ok w
+  | some (_, none) => .error .encodingError
+  | none => .error .abort
+
+def key (k : String) (i : Nat) : String := k ++ "_" ++ toString i
+
+def handleLC (r : Req) : R String := do
+  match r.op with
+  | "lincode.tensor" =>
+    let point ← getPoint (p := p) r
+    let ncols ← asNat (← need r "ncols")
+    let nrows ← asNat (← need r "nrows")
+    pure <| exceptReply (tensor point ncols nrows) fun ab => [("a", vFes ab.1), ("b", vFes ab.2)]
+  | "lincode.open_alg" =>
+    let point ← getPoint (p := p) r
+    let wf ← asBool (← need r "wf")
+    let nrows ← asNat (← need r "nrows")
+    let ncols ← asNat (← need r "ncols")
+    let next ← asNat (← need r "next")
+    let mat ← asFess (← need r "mat")
+    let ext ← asFess (← need r "ext")
+    let rr ← asFes (← need r "r")
+    let idxbytes ← asNatss (← need r "idxbytes")
+    let indices := getIndices next idxbytes
+    let pp : Params (Fp p) Nat :=
+      { enc := fun _ => .error .abort, dims := fun _ => (nrows, ncols), colHash := fun _ => 0,
+        hs := flagHashes, checkWf := wf }
+    let st : State (Fp p) Nat := ⟨⟨mat.length, ncols, mat⟩, ⟨ext.length, next, ext⟩, List.replicate next 0⟩
+    let c : Comm Nat := ⟨nrows, ncols, next, 0⟩
+    pure <| exceptReply (openOne pp point c st ⟨rr, indices⟩) fun π =>
+      [("v", vFes π.opening.v), ("wf", vOptFes π.wf),
+       ("columns", .l (π.opening.columns.map vFes)), ("indices", vNats indices),
+       ("leafidx", vNats (π.opening.paths.map (·.leafIndex))),
+       ("depth", vNats (π.opening.paths.map fun q => q.authPath.length + 1))]
+  | "lincode.check_alg" =>
+    let point ← getPoint (p := p) r
+    let wf ← asBool (← need r "wf")
+    let ncomm ← asNat (← need r "ncomm")
+    let nval ← asNat (← need r "nval")
+    let nproof ← asNat (← need r "nproof")
+    let comms ← (List.range ncomm).mapM fun i => do
+      pure (⟨← asNat (← need r (key "nrows" i)), ← asNat (← need r (key "ncols" i)),
+             ← asNat (← need r (key "next" i)), 1⟩ : Comm Nat)
+    let vals ← (List.range nval).mapM fun i => do asFe (p := p) (← need r (key "value" i))
+    -- transcript outputs: present for the positions the implementation reached
+    let oracles ← (List.range (min ncomm nval)).mapM fun i => do
+      match r.get? (key "idxbytes" i), comms[i]? with
+      | some ib, some c => do
+        let rr ← asFes (p := p) (← need r (key "r" i))
+        let bytes ← asNatss ib
+        pure (some (⟨rr, getIndices c.nExtCols bytes⟩ : Oracle (Fp p)))
+      | _, _ => pure none
+    -- positions the implementation never reached have no recorded outputs: an empty oracle there
+    let os := oracles.map fun o => o.getD ⟨[], []⟩
+    let proofs ← (List.range nproof).mapM fun i => do
+      let v ← asFes (p := p) (← need r (key "v" i))
+      let pwf ← asOptFes (p := p) (← need r (key "pwf" i))
+      let cols ← asFess (p := p) (← need r (key "cols" i))
+      let leafok ← (← asNats (← need r (key "leafok" i))).mapM fun x => pure (x != 0)
+      let pathok ← (← asNats (← need r (key "pathok" i))).mapM fun x => pure (x != 0)
+      let qs := match os[i]? with | some o => o.indices | none => []
+      pure (⟨⟨flagPaths qs leafok pathok, v, cols⟩, pwf⟩ : Proof (Fp p) Nat)
+    let tbl ← (List.range nproof).mapM fun i => do
+      let v ← asFes (p := p) (← need r (key "v" i))
+      let pwf ← asOptFes (p := p) (← need r (key "pwf" i))
+      let ev ← match r.get? (key "ev" i) with
+        | some x => asOptFes (p := p) x
+        | none => pure none
+      let ewf ← match r.get? (key "ewf" i) with
+        | some x => asOptFes (p := p) x
+        | none => pure none
+      pure ([(v, ev)] ++ (match pwf with | some w => [(w, ewf)] | none => []))
+    let pp : Params (Fp p) Nat :=
+      { enc := tableEnc tbl.flatten, dims := fun _ => (0, 0), colHash := fun _ => 0,
+        hs := flagHashes, checkWf := wf }
+    pure <| exceptReply (checkAll pp point comms vals proofs os) fun b =>
+      [("b", vBool b), ("indices", .l (os.map fun o => vNats o.indices))]
+  | _ => .error "unknown-op"
 
 /-- `none` = not an op of this module -/
 def handle (p : Nat) (r : Req) : Option (Except String String) :=
-  let _ := p
-  let _ := r
-  none
+  if r.op.startsWith "lincode." then some (handleLC (p := p) r) else none
 
 end DrvLinCode
 end PCV
